@@ -34,7 +34,7 @@ package obykeyset
 //@   flag nosafety noinfer checkpanics
 //@   requires[verified-before-constructed] ocfgok(schema, keyFields, tagTemplate)
 //@   modifies everything
-//@   before localcachedmap.LocalCachedMap.GetOrCreate: assert[recovered-queue-id-is-the-joined-tuple] len(keys) == len(keyFields) && joinedof(pipelineID, joinpos, keys, 44, len(keys))
+//@   before localcachedmap.LocalCachedMap.GetOrCreate: assert[recovered-queue-id-is-the-joined-tuple] joinedof(pipelineID, joinpos, keys, 44, len(keys))
 //@   before localcachedmap.LocalCachedMap.GetOrCreate: assert[recovered-keys-are-separator-free] forall k int :: 0 <= k && k < len(keys) ==> nosep(keys[k], 44)
 
 // ---- start-up / reload: the queue ids found for EVERY output-buffer pair are handed to NewOrchestrator, so that the chunks
